@@ -42,7 +42,7 @@ pub fn run(ctx: &mut Ctx) {
     for (n, ok) in r9::selftest(ctx.shard == 0) {
         ctx.selftest(&n, ok);
     }
-    ctx.require(&["annex_g", "exact_vs_reference", "input_Z_ne_1", "input_affine", "a=N-1", "b=N-1", "a=1", "bilinearity", "nondegenerate", "order_N", "g2_Z_in_Fp2"]);
+    ctx.require(&["annex_g", "exact_vs_reference", "input_Z_ne_1", "input_affine", "a=N-1", "b=N-1", "a=1", "bilinearity", "nondegenerate", "order_N", "g2_Z_in_Fp2", "infinity_input"]);
     let pr = r9::params();
     // --- Annex value of g = e(P1, Ppub-s): full 384 bytes against the reference, first coefficient against the standard
     if ctx.shard == 0 {
@@ -132,6 +132,27 @@ pub fn run(ctx: &mut Ctx) {
         match guard(|| hk::fp12_pow(&g0, &nm1).fp_mul(&g0).to_bytes_be()) {
             Outcome::Ret(b) if b == one => {}
             o => ctx.violation(&format!("pairing:g^N!=1:{}", o.class()), json!({})),
+        }
+    }
+    // points at infinity (scalars 0 and N): e(O, Q) = e(P, O) = 1
+    if ctx.shard == 0 {
+        let one = r9::f12bytes(&r9::f12one());
+        let nl = limbs(&pr.n);
+        let cases: Vec<(&str, gm_sm9::points::Point, gm_sm9::points::TwistPoint)> = vec![
+            ("P=O_canonical", gm_sm9::points::Point::zero(), hk::generator_p2()),
+            ("P=[N]P1", hk::generator_p1().point_mul(&nl), hk::generator_p2()),
+            ("Q=O_canonical", hk::generator_p1(), gm_sm9::points::TwistPoint::zero()),
+            ("Q=[N]P2", hk::generator_p1(), hk::generator_p2().point_mul(&nl)),
+            ("P=O,Q=O", gm_sm9::points::Point::zero(), gm_sm9::points::TwistPoint::zero()),
+        ];
+        for (nm, pp, qq) in cases {
+            ctx.eval();
+            ctx.class("infinity_input");
+            ctx.distinct("inf", &[nm.as_bytes()]);
+            match guard(|| hk::pairing(&qq, &pp).to_bytes_be()) {
+                Outcome::Ret(b) if b == one => {}
+                o => ctx.violation(&format!("pairing:{}:not-1", nm), json!({"case": nm, "outcome": match &o { Outcome::Ret(b) => hex::encode(&b[..32]), o => o.class().to_string() }})),
+            }
         }
     }
     for i in 0..n {
